@@ -102,7 +102,10 @@ void reindent_line(Chunk *pc, size_t column)
       }
       else
       {
-         pc->SetColumn(max(pc->GetColumn() + col_delta, min_col));
+         // col_delta may be negative: the sum must not wrap around
+         const long moved = static_cast<long>(pc->GetColumn()) + col_delta;
+
+         pc->SetColumn((moved > static_cast<long>(min_col)) ? static_cast<size_t>(moved) : min_col);
 
          LOG_FMT(LINDLINED, "%s(%d): set column of ", __func__, __LINE__);
 
